@@ -3,14 +3,18 @@ import random
 import numpy as np
 
 from vcheck import gen_all
-from harness import circgen as cg, sdfgen as sg
+from harness import circgen as cg, sdfgen as sg, sdf_text as st
 
 THEOREMS = ['C14_cells_none_lost', 'C14_cells_none_lost_in', 'C14_cells_keys', 'C14_cells_lost_refuted', 'C14_delayfile_of_blocks',
             'C14_cell_entries', 'C14_io_items_of_blocks', 'C14_one_triple_both', 'C14_two_triples', 'C14_empty_triple_zero',
             'C14_iopath_slots', 'C14_iopath_entry_present', 'C14_iopath_untouched_zero', 'C14_iopath_resolve',
             'C14_edge_posedge', 'C14_edge_negedge', 'C14_edge_plain',
             'C14_interconnect_slots', 'C14_interconnect_entry_present', 'C14_interconnect_untouched_zero', 'C14_interconnect_resolve',
-            'C14_interconnect_line', 'C14_interconnect_skip_nonneg', 'C14_dataset_axis']
+            'C14_interconnect_line', 'C14_interconnect_skip_nonneg', 'C14_dataset_axis',
+            # sdf.py from TEXT (Model/SdfText.v)
+            'C14_text_parse_cfile', 'C14_text_parse_print', 'C14_text_print_is_cfile', 'C14_text_ignored_text_irrelevant',
+            'C14_text_skipped_items_irrelevant', 'C14_text_entry_kept', 'C14_text_entry_kept_any', 'C14_text_delayfile_of_blocks',
+            'C14_text_example', 'C14_text_name_whitespace_refuted']
 LIBS = ['NANGATE', 'SAED32', 'SAED90', 'GSC180', 'NANGATE_ZN']
 
 
@@ -33,6 +37,7 @@ def run(ck):
     rng = random.Random(ck.seed * 7919 + 14)
     from kyupy import verilog, techlib
     fails, cases, meta = [], [], []
+    sdf_texts = []          # (text, stream) of every SDF file of the streams below: also run through the TEXT-level model
 
     # --- pin table ------------------------------------------------------------------------------------------
     pcs = pin_cases()
@@ -63,6 +68,7 @@ def run(ck):
                                                   'expected_interconnects': eic.tolist()}, f'{what}: {msg}'))
             cases.append(sg.coq_case(stext, c, lib, df, io_, ic_))
             meta.append({'sdf': stext, 'stream': 'directed'})
+        sdf_texts.append((stext, 'directed'))
 
     # --- random circuits x SDF renderings x branchforks -------------------------------------------------------
     n_main = ck.scale(70, 2500)
@@ -73,6 +79,7 @@ def run(ck):
         for j in range(2):
             s = sg.gen_sdf(rng, a)
             stext = sg.render_sdf(rng, a, s)
+            sdf_texts.append((stext, 'main'))
             for bf in (False, True):
                 c = circs[bf]
                 df, io_, ic_ = sg.run_impl(stext, c, a.lib)
@@ -100,6 +107,7 @@ def run(ck):
         vtext = sg.render_verilog(rng, a)
         s, kind = sg.gen_edge_sdf(rng, a)
         stext = sg.render_sdf(rng, a, s)
+        sdf_texts.append((stext, 'edge:' + kind))
         bf = rng.random() < 0.5
         c = sg.parse_circuit(a, vtext, bf)
         df, io_, ic_ = sg.run_impl(stext, c, a.lib)
@@ -111,6 +119,78 @@ def run(ck):
         except Exception as e:   # the file does not even pass the grammar
             ck.count(1, 'edge:rejected-by-grammar')
 
+    # --- TEXT level: lark (contextual lexer + LALR parser) on sdf.GRAMMAR against parse_sdf / tree_of_text / print_sdf --------------
+    tcases, tmeta = [], []
+    n_rej, n_acc, n_dom = {}, {}, 0
+    trng = random.Random(ck.seed * 7919 + 1414)
+
+    def add_text(text, stream):
+        nonlocal n_dom
+        cs, d = st.text_cases(text)
+        d['stream'] = stream
+        ck.count(1, 'text:' + stream.split(':')[0] + (':lark-raises' if d['raises'] else ''))
+        ck.nontrivial(('text', hash(text) & 0xffffff))
+        key = stream.split(':')[0]
+        (n_rej if d['raises'] else n_acc)[key] = (n_rej if d['raises'] else n_acc).get(key, 0) + 1
+        n_dom += d['numbers_in_exact_domain']
+        tcases.extend(cs)
+        tmeta.extend([d] * len(cs))
+        return d
+    n_gen = ck.scale(100, 1500)
+    step = max(1, len(sdf_texts) // n_gen)          # quick tier: an even sample over the directed / main / edge streams
+    for k, (text, stream) in enumerate(sdf_texts[::step]):
+        d = add_text(text, 'generated:' + stream)
+        if d['raises'] and not stream.startswith('edge'):
+            fails.append(('text:generated', {'sdf': text}, f'lark rejects a generated SDF file: {d["raises"]}'))
+        # single-character and token mutations of a file of realistic shape
+        for _ in range(2 if k < ck.scale(40, 600) else 0):
+            add_text(st.mutate(trng, text), 'mutated-file')
+    for _ in range(ck.scale(420, 6000)):
+        text, stream, truth = st.gen_case_text(trng)
+        add_text(text, stream)
+        if truth is not None:
+            of = st.truth_oracle(text, truth)
+            if of:
+                fails.append(('text:supported-language', {'sdf': text, 'expected_tree': truth}, 'sdf.py grammar: ' + of))
+        tree = st.real_tree(text)[0]
+        if tree is not None and st.printable(tree) and trng.random() < 0.5:
+            cs, d, of = st.print_cases(tree)
+            ck.count(1, 'text:printed')
+            if of:
+                fails.append(('text:print', d, 'sdf.py grammar: ' + of))
+            tcases.extend(cs)
+            tmeta.extend([d] * len(cs))
+    cs, ds = st.corner_cases()
+    tcases += cs
+    tmeta += ds
+    ck.count(len(st.CORNER_TEXTS), 'text:corner')
+    cs, ds = st.dec_cases()
+    tcases += cs
+    tmeta += ds
+    ck.count(len(cs), 'text:number')
+    # the probes behind C14_text_name_whitespace_refuted, against the implementation (known finding, reported as such below)
+    ws_probe = st.whitespace_probe()
+    tsize = 60
+    tchunks = [tcases[i:i + tsize] for i in range(0, len(tcases), tsize)]
+    touts = ck.coq_eval_many('st', [st.cases_file(ch) for ch in tchunks], jobs=12)
+    tbad = [ci * tsize + j for ci, (ok, out) in enumerate(touts) for j in ((cg.parse_nat_list(out) if ok else None) or [])]
+    tran = all(ok and cg.parse_nat_list(out) is not None for ok, out in touts)
+    terr = next((out[-600:] for ok, out in touts if not ok), '')
+    ck.obligation(f'Coq transcription of sdf.GRAMMAR as lark parses it (contextual lexer: ID / ID_OR_EDGE / _NOB / NAME against the two ignore terminals, '
+                  f'keywords as plain prefixes; LALR parser) = the tree lark hands to SdfTransformer, and tree_of_text = that tree with numbers scaled by 8 '
+                  f'(None outside the exact number domain), on {len(tcases)} cases: the SDF files of the streams above ({n_acc.get("generated", 0)} accepted), '
+                  f'single-character / token mutations of them ({n_rej.get("mutated-file", 0)} rejected by lark, {n_acc.get("mutated-file", 0)} accepted), rendered texts with '
+                  f'arbitrary ignored text and odd names / numbers / payloads ({n_acc.get("rendered", 0) + n_acc.get("rendered-odd", 0)} accepted, {n_rej.get("rendered-odd", 0)} rejected), '
+                  f'a malformed stream ({n_rej.get("malformed", 0)} rejected, {n_acc.get("malformed", 0)} accepted) and keyword soup ({n_rej.get("soup", 0)} rejected) -- both sides must '
+                  f'reject or agree on the tree; {len(st.CORNER_TEXTS)} fixed corner-case probes; float() of number texts; print_sdf output read back by lark',
+                  tran and not tbad and n_rej.get('malformed', 0) > 0 and n_rej.get('mutated-file', 0) > 0 and n_acc.get('generated', 0) > 0 and n_dom > 0,
+                  'correspondence', f'failing cases {tbad[:8]} {[tmeta[b] for b in tbad[:2]]} {terr}')
+    lp = st.lexer_probe()
+    ck.obligation('lark builds the scanners Model/SdfText.v is transcribed from (contextual lexer; regular expressions before string literals, in the order '
+                  + ', '.join(st.TERMINAL_ORDER) + '; at most one non-ignore regular expression per parser state)', lp is None, 'translation', str(lp))
+    ck.obligation('implementation on the probes of C14_text_name_whitespace_refuted: a newline / tab next to a name is lexed into the name '
+                  '(instance "u1\\n": its IOPATH delays are dropped with a warning; "A1<TAB>ZN": one pin name)', ws_probe is None, 'oracle', str(ws_probe))
+
     per = 25
     chunks = [cases[i:i + per] for i in range(0, len(cases), per)]
     outs = ck.coq_eval_many('sdf', [sg.cases_file(ch) for ch in chunks], jobs=12)
@@ -121,6 +201,9 @@ def run(ck):
                   f'interconnects = implementation on {len(cases)} (file, circuit, branchforks) cases: DelayFile contents in dict order and both '
                   'arrays exactly, exceptions included', ran and not bad, 'correspondence',
                   f'failing cases {bad[:8]}; first: {meta[bad[0]] if bad else ""} {err}')
+    ck.rule('TEXT level: texts of the supported SDF sub-language rendered from a generator-owned tree (header entries, CELLTYPE, (INSTANCE), TIMINGCHECK '
+            'payloads, quoted / escaped / edge names, empty / negative / fractional number texts, ignored text incl. comments, tabs, form feeds, \\r\\n '
+            'wherever the grammar ignores it): lark must accept and return exactly that tree')
     ck.rule('random Verilog netlists over NANGATE/SAED32/SAED90 cells (multi-output cells, flip-flops, unconnected pins, escaped instance names, '
             'fan-out, output ports) x both branchforks settings x SDF renderings (one or several CELL blocks per instance, several instance-less '
             'blocks, several DELAY sections, interleaving, entry shuffles, posedge/negedge, empty triples and components, one or two triples, '
@@ -128,9 +211,12 @@ def run(ck):
             'edge stream (negative values, unknown pins/cells, hierarchical names, misplaced entries, no instance-less block, 0/3 triples, mixed '
             'spellings, all-zero duplicates): Coq model vs implementation only')
     ck.trust('modelled, not verified: SdfTransformer.triple/sanitize/iopath/interconnect/cell/start, DelayFile.__init__/iopaths/interconnects '
-             '(Model/Sdf.v; tied by exact correspondence incl. exceptions); NOT modelled: the lark grammar and lexer of sdf.py (text -> tree; the '
-             'harness feeds the tree produced by the implementation\'s own GRAMMAR to the model), float() of decimal strings (all generated values '
-             'are k/8), numpy broadcasting of the slot assignment, verilog.parse (ground truth lines are located by fork names); node equality is '
+             '(Model/Sdf.v; tied by exact correspondence incl. exceptions); sdf.GRAMMAR under lark 0.12 (contextual lexer, terminal order, ignore '
+             'rules, LALR parser; Model/SdfText.v: parse_sdf, tied by exact correspondence on every run incl. malformed texts, code points < 256; the '
+             'theorems cover the ways of writing a file described by the concrete syntax `cfile`, texts outside it -- e.g. a name directly after a '
+             'keyword, a comment with parentheses inside a TIMINGCHECK payload -- are covered by the correspondence only); float() of number texts is '
+             'modelled for decimals denoting k/8 with at most 15 digits (dec8; other texts: tree_of_text = None, dec_valid says whether float() raises); '
+             'NOT modelled: lark itself (its behaviour on sdf.GRAMMAR is transcribed, not derived), numpy broadcasting of the slot assignment, verilog.parse (ground truth lines are located by fork names); node equality is '
              'taken as index equality (names unique per kind); a fork whose ins[0] is None is outside the model (numpy would treat None as newaxis)')
     ck.assumptions.append('supported subset of C14: non-negative delays; one spelling per instance name within a file; INTERCONNECT destinations at an output '
                           'port only on fan-out-free nets (verilog.parse creates no branch fork for ports); an instance-less CELL block exists when '
@@ -141,6 +227,8 @@ def run(ck):
             continue
         seen.add(key)
         ck.fail(key, 'sdf: ' + what, {'component': 'sdf.SdfTransformer.start / sdf.DelayFile', 'input': desc, 'actual': what})
+    if not fails and tbad:
+        ck.fail('model-disagrees-text', 'Coq model of the SDF text level and lark disagree', {'component': 'Model/SdfText.v', 'input': tmeta[tbad[0]]}, found_input=False)
     if not fails and bad:
         ck.fail('model-disagrees', 'Coq model and implementation disagree', {'component': 'Model/Sdf.v', 'input': meta[bad[0]]}, found_input=False)
 
@@ -148,6 +236,8 @@ def run(ck):
 def replay(rp):
     from kyupy import verilog, techlib
     inp = rp['input']
+    if 'expected_tree' in inp:
+        return st.truth_oracle(inp['sdf'], inp['expected_tree']) is not None
     if 'expected_iopaths' not in inp:
         return True
     c = verilog.parse(inp['verilog'], tlib=getattr(techlib, inp['lib']), branchforks=inp['branchforks'])
